@@ -24,6 +24,11 @@ port are observed, so a refactor that keeps the results keeps the tie):
     source   harness/translate_C07.py reads filter size / paddings / default output size of
              iradon_torch from the current source; coq/gen_proofs/C07_GenProperties.v proves them
              equal to the model for every N >= 1 (fail closed)
+             harness/translate_C07_full.py reads the rest (filter construction per name, radon sampling grid /
+             mask / crop / summed axis, back-projection term / circle mask / scale / FFT pipeline sizes / default
+             theta); coq/gen_proofs/C07_GenFull_Properties.v proves them equal to the model and to the scikit-image
+             transcription for all arguments; the generated functions are executed against the running code
+Round 4: call HISTORIES are part of the oracle (gen_history / oracle_history / oracle_reuse).
     filter   the model's index vector / ramp kernel / window arguments and coefficients per
              filter name and index  ->  2 Re fft(kernel) * window, vs both implementations
     iradon   integer geometry (diagonal, pad_before, padded FFT size, default output size) vs
@@ -35,6 +40,7 @@ from __future__ import annotations
 
 import json
 import math
+import re
 import warnings
 from fractions import Fraction
 
@@ -612,10 +618,155 @@ def oracle_sirt(case):
     return None
 
 
+# ------------------------------------------------------------------------------------------
+# call HISTORIES: the property quantifies over every (size, angle set, filter name) — also when the calls are made
+# one after another in ONE process, in any order (a result that depends on which filter / size / dtype / angle set was
+# requested BEFORE — a cache keyed too coarsely, a cached tensor written in place, an argument tensor modified by the
+# call — breaks it without any single fresh call being wrong).  A history is a list of steps; every step is judged by
+# the same differential oracle as a single case (against scikit-image on the values the inputs have AT CALL TIME).
+
+
+def oracle_reuse(case):
+    """the SAME tensor objects (image / sinogram, angles) handed to several calls in a row: every result is compared
+    with scikit-image on the content the tensors have when the call is made"""
+    torch, radon, iradon, _, port = _mods()
+    seed = case["seed"]
+    theta = make_theta(case["theta_kind"], case["A"], seed)
+    th_t = t_theta(theta, theta_dtype(case))
+    if case["what"] == "radon":
+        n = case["n"]
+        img_t = torch.from_numpy(make_image(case["img_kind"], n, seed).copy())
+        for rep in range(case["reps"]):
+            img_now, th_now = img_t.numpy().copy(), th_t.numpy().astype(np.float64).copy()
+            got = port.radon_torch(img_t, theta=th_t).detach().numpy().astype(np.float64).reshape(len(th_now), n)
+            ref = run_radon_sk(img_now, th_now)
+            scale = n * max(float(np.abs(img_now * disc(n)).max()), 1e-30)
+            err = float(np.abs(got - ref).max()) if np.isfinite(got).all() else float("inf")
+            if not err <= RADON_RTOL * scale:
+                return ("radon-reused-tensors", "call %d of radon_torch with the SAME image and angle tensor objects "
+                        "(%dx%d %s image, %s angles %s) differs from skimage.transform.radon of the tensors' content at "
+                        "call time: max error %.3g" % (rep + 1, n, n, case["img_kind"], case["theta_kind"],
+                                                       _short_theta(th_now), err), {"err": err})
+        return None
+    N, circle = case["N"], case["circle"]
+    s_t = torch.from_numpy(make_sino(case["sino_kind"], N, theta, seed).copy())
+    for rep, filt in enumerate(case["filters"]):
+        s_now, th_now = s_t.numpy().copy(), th_t.numpy().astype(np.float64).copy()
+        r = port.iradon_torch(s_t, theta=th_t, filter_name=filt, circle=circle)
+        got = r.detach().numpy().astype(np.float64)
+        ref = run_iradon_sk(s_now, th_now, filt, circle)
+        ok = well_conditioned(N, th_now, circle, None)
+        scale = max(float(np.abs(s_now).max()), 1e-30)
+        err = float("inf") if got.shape != ref.shape or not np.isfinite(got).all() else \
+            float(np.where(ok, np.abs(got - ref), 0.0).max()) if got.size else 0.0
+        if not err <= IRADON_RTOL * scale:
+            return ("iradon-reused-tensors", "call %d (filter %r) of iradon_torch with the SAME sinogram and angle tensor "
+                    "objects (N=%d, circle=%s, filters in order %s) differs from skimage.transform.iradon of the tensors' "
+                    "content at call time: max error %.3g" % (rep + 1, filt, N, circle, case["filters"], err), {"err": err})
+    return None
+
+
+def _fresh_verdict(step):
+    """the verdict of ONE step in a fresh interpreter (only called after a history step failed): None = passes alone"""
+    import os
+    import subprocess
+    import sys
+    code = ("import json,sys\nfrom harness.props import C07\nstep=json.loads(sys.argv[1])\n"
+            "res=C07.ORACLES[step['kind']](step)\nprint('FRESH-VERDICT', json.dumps(None if res is None else res[0]))\n")
+    try:
+        p = subprocess.run([sys.executable, "-W", "ignore", "-c", code, json.dumps(_public(step))], cwd="/verif",
+                           env=dict(os.environ), stdout=subprocess.PIPE, stderr=subprocess.DEVNULL, text=True, timeout=300)
+        for line in p.stdout.splitlines():
+            if line.startswith("FRESH-VERDICT"):
+                return json.loads(line.split(" ", 1)[1]), True
+    except Exception:  # noqa
+        pass
+    return None, False
+
+
+def oracle_history(case):
+    steps = case["steps"]
+    for j, step in enumerate(steps):
+        step = dict(step)
+        try:
+            res = ORACLES[step["kind"]](step)
+        except Exception as e:  # noqa
+            res = ("%s-raises" % step["kind"], "the implementation raised %r" % (e,), {})
+        if res is None:
+            continue
+        key, what, detail = res
+        alone, known = _fresh_verdict(step) if case.get("_classify", True) else (key, False)
+        dep = known and alone is None
+        earlier = "; ".join("%d:%s" % (i, _step_label(s)) for i, s in enumerate(steps[:j]))[-700:]
+        return (("history-dependent-" if dep else "history-") + key,
+                "step %d of a history of %d calls made in one process (%s) fails%s: %s  [earlier calls: %s]"
+                % (j, len(steps), _step_label(step),
+                   " although the same call passes in a fresh process — the result depends on the calls made before" if dep
+                   else (" (the same call also fails in a fresh process)" if known else ""), what, earlier or "none"),
+                {"failing_step": j, "step": _public(step), "passes_alone": dep, **detail})
+    return None
+
+
+def _step_label(s):
+    k = s["kind"]
+    if k == "filter":
+        return "filter(%d,%r)" % (s["size"], s["filter"])
+    if k in ("iradon", "iradon-batch"):
+        return "%s(N=%d,%r,%s%s%s)" % (k, s["N"], s["filter"], "circle" if s["circle"] else "nocircle",
+                                      ",f64" if s.get("dtype") == "float64" else "", ",%s" % s["theta_kind"])
+    if k == "reuse":
+        return "reuse-%s(%s)" % (s["what"], s.get("n") or s.get("N"))
+    return "%s(n=%d,%s%s)" % (k, s["n"], s.get("theta_kind"), ",f64" if s.get("dtype") == "float64" else "")
+
+
+def gen_history(r, idx):
+    """one history: the calls share padded filter sizes (so that a state kept per size / name / dtype is revisited),
+    every filter name occurs before AND after every other one, sizes / dtypes / angle sets / batch sizes alternate"""
+    P = [64, 128][idx % 2]
+    circ_w = list(range(2, 23)) if P == 64 else list(range(23, 46))      # padded_size(diagonal N) = P
+    flat_w = list(range(2, 33)) if P == 64 else list(range(33, 65))      # padded_size(N) = P
+    A_of = lambda: r.choice([1, 2, 3, 5])                                # noqa: E731
+    sd = lambda: r.randrange(1 << 30)                                    # noqa: E731
+    pool = []
+    for name in FILTERS:
+        pool.append({"kind": "filter", "size": P, "filter": name})
+        pool.append({"kind": "filter", "size": r.choice([P // 2, 2 * P, 2 * r.randint(1, 40)]), "filter": name})
+        circle = r.random() < 0.6
+        pool.append({"kind": "iradon", "N": r.choice(circ_w if circle else flat_w), "filter": name, "circle": circle,
+                     "out": None, "sino_kind": r.choice(SINO_KINDS), "A": A_of(), "seed": sd(),
+                     "theta_kind": r.choice(["random", "default", "uniform", "random64", "integers", "unsorted"]),
+                     **({"dtype": "float64"} if r.random() < 0.3 else {})})
+    n0 = r.choice([6, 7, 8, 9, 12])
+    tk0, a0, s0 = r.choice(THETA_KINDS), A_of(), sd()
+    for j in range(5):
+        # same size with other angles / dtype, same angles with another size, default angles
+        same_size, same_theta = j % 2 == 0, j % 3 == 0
+        pool.append({"kind": "radon", "n": n0 if same_size else r.choice([5, 10, 11, 16, 21]), "img_kind": r.choice(IMG_KINDS),
+                     "theta_kind": tk0 if same_theta else r.choice(THETA_KINDS + ["random64", "integers", "repeated"]),
+                     "A": a0 if same_theta else A_of(), "seed": s0 if same_theta else sd(),
+                     **({"dtype": "float64"} if j in (1, 4) else {})})
+    pool.append({"kind": "radon", "n": r.choice([4, 6, 9]), "img_kind": "noise", "theta_kind": "default", "A": 180, "seed": sd()})
+    pool.append({"kind": "theta0", "n": n0, "img_kind": r.choice(IMG_KINDS), "seed": sd()})
+    pool.append({"kind": "radon-batch", "n": n0, "B": r.choice([1, 2, 3]), "theta_kind": r.choice(THETA_KINDS), "A": A_of(), "seed": sd()})
+    pool.append({"kind": "iradon-batch", "N": r.choice(circ_w), "B": r.choice([1, 2, 3]), "filter": r.choice(FILTERS), "circle": True,
+                 "theta_kind": r.choice(THETA_KINDS), "A": A_of(), "seed": sd()})
+    fl = list(FILTERS)
+    r.shuffle(fl)
+    pool.append({"kind": "reuse", "what": "iradon", "N": r.choice(circ_w), "circle": True, "filters": fl[:4] + [fl[0]],
+                 "sino_kind": r.choice(SINO_KINDS), "theta_kind": r.choice(["random", "uniform", "random64"]), "A": A_of(), "seed": sd()})
+    pool.append({"kind": "reuse", "what": "radon", "n": n0, "img_kind": r.choice(IMG_KINDS), "reps": 3,
+                 "theta_kind": r.choice(["random", "special", "integers"]), "A": A_of(), "seed": sd()})
+    r.shuffle(pool)
+    again = [dict(s) for s in pool if s["kind"] in ("filter", "iradon")]
+    r.shuffle(again)
+    return {"kind": "history", "P": P, "steps": pool + again, "seed": idx}
+
+
 ORACLES = {
     "radon": oracle_radon, "theta0": oracle_theta0, "radon-batch": oracle_radon_batch,
     "radon-linear": oracle_radon_linear, "filter": oracle_filter, "iradon": oracle_iradon,
     "iradon-batch": oracle_iradon_batch, "iradon-linear": oracle_iradon_linear, "sirt": oracle_sirt,
+    "reuse": oracle_reuse, "history": oracle_history,
 }
 
 
@@ -673,6 +824,9 @@ REGRESSION = [
 def gen_oracle_cases(ctx: Ctx):
     r = ctx.rng
     cases = [dict(c) for c in REGRESSION]
+    # --- call histories (first: the process is still fresh, so what a history leaves behind is what the later steps see)
+    for i in range(ctx.budget(6, 40)):
+        cases.append(gen_history(r, i))
     sizes = list(range(2, 66))
     # --- radon: every size 2..65 at least once per run (quick: once; thorough: x12)
     for rep in range(ctx.budget(1, 12)):
@@ -770,15 +924,22 @@ def check_oracle(ctx: Ctx):
     cases = gen_oracle_cases(ctx)
     fails = {}
     worst = {}
+    hist_failed = False
     for case in cases:
         kind = case["kind"]
+        if kind == "history":
+            case["_classify"] = not hist_failed      # one fresh-interpreter classification per run (5-10 s)
         try:
             res = ORACLES[kind](case)
         except Exception as e:  # noqa  (the implementation raising on a valid input is a failure of the property)
             res = ("%s-raises" % kind, "%s check: the implementation raised %r on case %s" % (kind, e, _public(case)), {})
-        size = case.get("n") or case.get("N") or case.get("size")
+        size = case.get("n") or case.get("N") or case.get("size") or case.get("P")
         par = "even" if size % 2 == 0 else "odd"
-        if kind == "filter":
+        if kind == "history":
+            ctx.dist("history/padded-size-%d" % case["P"])
+            ctx.count(("history", case["P"], json.dumps(case["steps"], sort_keys=True, default=str)))
+            ctx.cov["history_steps"] = ctx.cov.get("history_steps", 0) + len(case["steps"])
+        elif kind == "filter":
             ctx.dist("filter/%s" % (case["filter"] or "none"))
             ctx.count(("filter", size, case["filter"]), nontrivial=case["filter"] is not None)
         elif kind == "sirt":
@@ -793,6 +954,7 @@ def check_oracle(ctx: Ctx):
             ctx.count((kind, size, case.get("img_kind"), case.get("theta_kind"), case.get("A"), case.get("dtype"),
                        case["seed"]), nontrivial=size >= 3)
         if res is not None:
+            hist_failed = hist_failed or kind == "history"
             key, what, detail = res
             rank = (size < 8, size)      # report the smallest failing size >= 8 (smaller ones only if there is none)
             if key not in fails or rank < fails[key][0]:
@@ -1231,7 +1393,33 @@ def check_geometry_corr(ctx: Ctx):
 # the integer geometry of iradon_torch, read from the CURRENT source and tied to the model BY THEOREM
 
 
-def check_geometry_tie(ctx: Ctx, geo):
+def prebuild_geometry_gen(ctx: Ctx):
+    """translate the integer geometry and compile build/C07/C07_Gen.v once, for both ties (they run side by side)"""
+    from .. import translate_C07 as T
+    from ..common import COQ_FLAGS, SRC, sh
+    st = {"defs": None, "problems": [], "compiled": False}
+    try:
+        st["defs"] = T.translate(SRC / "quantem" / "tomography" / "radon" / "radon.py")
+    except T.TranslateError as e:
+        st["problems"].append("geometry tie: the translator (fail closed) rejected the source of iradon_torch: %s" % e)
+        return st
+    except Exception as e:  # noqa
+        st["problems"].append("geometry tie could not run: %r" % (e,))
+        return st
+    gen = ctx.dir / "C07_Gen.v"
+    for stale in (gen.with_suffix(".vo"), ctx.dir / "C07_GenProperties.vo"):
+        if stale.exists():
+            stale.unlink()
+    gen.write_text(T.emit(st["defs"]))
+    rc, out = sh(["timeout", "300", "coqc"] + COQ_FLAGS + ["-Q", str(ctx.dir), "GenC07", str(gen)], cwd=ctx.dir, timeout=330)
+    if rc != 0:
+        st["problems"].append("geometry tie: generated file C07_Gen.v does not compile:\n" + "\n".join(out.strip().splitlines()[-8:]))
+    else:
+        st["compiled"] = True
+    return st
+
+
+def check_geometry_tie(ctx: Ctx, geo, pre=None):
     """harness/translate_C07.py -> build/C07/C07_Gen.v -> coq/gen_proofs/C07_GenProperties.v (fixed script):
     filter size, detector padding, FFT padding and default output size of the source = the model's, for every N >= 1.
     Fail closed: an unreadable source or a failing lemma is a broken obligation; a concrete detector width at which
@@ -1243,35 +1431,31 @@ def check_geometry_tie(ctx: Ctx, geo):
     t0 = time.time()
     rec = {"script": "coq/gen_proofs/C07_GenProperties.v", "source": "tomography/radon/radon.py:iradon_torch"}
     ctx.cov["source_geometry_tie"] = rec
-    problems = []
-    defs = None
-    try:
-        defs = T.translate(SRC / "quantem" / "tomography" / "radon" / "radon.py")
+    pre = pre or prebuild_geometry_gen(ctx)
+    problems = list(pre["problems"])
+    defs = pre["defs"]
+    if defs is not None:
         rec["translated"] = defs
-    except T.TranslateError as e:
-        problems.append("geometry tie: the translator (fail closed) rejected the source of iradon_torch: %s" % e)
-    except Exception as e:  # noqa
-        problems.append("geometry tie could not run: %r" % (e,))
     tied = False
     if defs is not None:
         gen = ctx.dir / "C07_Gen.v"
-        for stale in (gen.with_suffix(".vo"), ctx.dir / "C07_GenProperties.vo"):
-            if stale.exists():
-                stale.unlink()
-        gen.write_text(T.emit(defs))
         xflags = ["-Q", str(ctx.dir), "GenC07"]
         script = COQ / "gen_proofs" / "C07_GenProperties.v"
         bad = ctx.static_scan([gen, script])
         if bad:
             problems.append("forbidden declarations: %s" % bad[:5])
-        rc, out = sh(["timeout", "300", "coqc"] + COQ_FLAGS + xflags + [str(gen)], cwd=ctx.dir, timeout=330)
-        if rc != 0:
-            problems.append("geometry tie: generated file C07_Gen.v does not compile:\n" + "\n".join(out.strip().splitlines()[-8:]))
-        else:
+        if pre["compiled"]:
+            _RP_LOCK.acquire()
             saved_cmd, saved_problems = ctx.cov["checker_cmd"], ctx._proof_problems
-            ok = ctx.require_proofs(props_name="C07_GenProperties", props_path=script, extra_flags=xflags, make_targets=[])
-            if not ok:
+            try:
+                ok = ctx.require_proofs(props_name="C07_GenProperties", props_path=script, extra_flags=xflags, make_targets=[])
                 msg = "; ".join(ctx._proof_problems)
+            finally:
+                ctx.cov["checker_cmd"] = saved_cmd + "  ;  harness/translate_C07.py > build/C07/C07_Gen.v && coqc C07_Gen.v && " \
+                                                     "coqc coq/gen_proofs/C07_GenProperties.v"
+                ctx._proof_problems = saved_problems
+                _RP_LOCK.release()
+            if not ok:
                 m = re.search(r'line (\d+), characters', msg)
                 lem = ""
                 if m:
@@ -1286,9 +1470,6 @@ def check_geometry_tie(ctx: Ctx, geo):
                                 "equals the model (fixed proof script fails at `%s`): %s" % (lem, msg[:900]))
             else:
                 tied = True
-            ctx.cov["checker_cmd"] = saved_cmd + "  ;  harness/translate_C07.py > build/C07/C07_Gen.v && coqc C07_Gen.v && " \
-                                                 "coqc coq/gen_proofs/C07_GenProperties.v"
-            ctx._proof_problems = saved_problems
             # the source's filter size evaluated for N = 1..1024 against the model's: the first deviating width, if any
             gpre = "From QV.lib Require Import Prelude.\nFrom QV.model Require Import C07_Model C07_Model_Ext.\n" \
                    "From GenC07 Require Import C07_Gen.\nLocal Open Scope Z_scope.\n"
@@ -1355,6 +1536,200 @@ def check_geometry_tie(ctx: Ctx, geo):
 
 
 
+# ------------------------------------------------------------------------------------------
+# the REST of radon.py (filter construction, sampling grid, back-projection term), read from the CURRENT source and
+# tied to the model BY THEOREM (harness/translate_C07_full.py -> build/C07/C07_GenFull.v ->
+# coq/gen_proofs/C07_GenFull_Properties.v); cross-test of the translator: the generated functions are executed
+# (vm_compute) and compared with calling the real Python functions
+
+
+GEN_PRE = PRE + r"""
+From QV.lib Require Import C07_TorchSem.
+From QV.model Require Import C07_Model_Ext.
+From GenC07 Require Import C07_Gen C07_GenFull C07_GenFull_Properties.
+Definition IDq (q : Q) : Q := q.
+Definition R1 : list (Q * Q) -> Z -> Q := fun _ _ => 1.
+Definition R0 : list (Q * Q) -> Z -> Q := fun _ _ => 0.
+(* per index: constant part, then with the ramp factor 1: K0 K0 K0 | sin=1 | sin=id | cos=1 | cos=id | sinc=1 | sinc=id *)
+Definition gprobe (nm : fname) (size : Z) :=
+  (map (fun k => map qz [gen_filter K0 K0 K0 R0 nm size k; gen_filter K0 K0 K0 R1 nm size k;
+                         gen_filter K1 K0 K0 R1 nm size k; gen_filter IDq K0 K0 R1 nm size k;
+                         gen_filter K0 K1 K0 R1 nm size k; gen_filter K0 IDq K0 R1 nm size k;
+                         gen_filter K0 K0 K1 R1 nm size k; gen_filter K0 K0 IDq R1 nm size k]) (zrange size),
+   gen_filter_raises size, gen_filter_raises (size + 1)).
+Definition gen_radcmp (n : Z) (den : positive) (rows : list (list Z)) (angs : list (Q * Q)) (impl : list (list Q)) :=
+  let m := map (fun cs => map (gen_radon bilred (ztab2 den rows) n (fst cs) (snd cs)) (zrange n)) angs in
+  (shape_ok m impl, q60 (maxerr m impl)).
+Definition gen_ircmp (h : Z -> Z -> Q) (pi : Q) (out A N : Z) (circle : bool) (angs : list (Q * Q)) (den : positive)
+  (rows : list (list Z)) (impl : list (list Q)) :=
+  let m := map (fun row => map (gen_iradon h pi out A N circle (ang_of_list angs) (ztab2 den rows) row) (zrange out)) (zrange out) in
+  (shape_ok m impl, q60 (maxerr m impl)).
+"""
+
+
+def _gen_filter_values(kern, probes):
+    """float filter from the generated kernel and the per-index probes (see gprobe)"""
+    f = np.array([float(a) / Q40 + (float(b) / Q40) / math.pi ** 2 for a, b in kern])
+    ramp = 2.0 * np.real(np.fft.fft(f))
+    out = []
+    for k, pr in enumerate(probes):
+        c0, base, s1, sid, c1, cid, n1, nid = [float(x) / Q40 for x in pr]
+        w0 = base - c0
+        v = w0
+        for one, ident, fn in ((s1, sid, lambda a: math.sin(math.pi * a)), (c1, cid, lambda a: math.cos(math.pi * a)),
+                               (n1, nid, lambda a: float(np.sinc(a)))):
+            w = one - base
+            if abs(w) > 1e-9:
+                v += w * fn((ident - base) / w)
+        out.append(c0 + ramp[k] * v)
+    return np.array(out)
+
+
+def check_full_tie(ctx: Ctx):
+    import time
+    from .. import translate_C07_full as TF
+    from ..common import COQ, COQ_FLAGS, SRC, sh
+    t0 = time.time()
+    rec = {"script": "coq/gen_proofs/C07_GenFull_Properties.v",
+           "source": "tomography/radon/radon.py: get_fourier_filter_torch, radon_torch, iradon_torch"}
+    ctx.cov["source_full_tie"] = rec
+    problems = []
+    text = None
+    try:
+        text = TF.translate_full(SRC / "quantem" / "tomography" / "radon" / "radon.py")
+    except TF.TranslateError as e:
+        problems.append("full tie: the translator (fail closed) rejected the current source of radon.py: %s" % str(e)[:600])
+    except Exception as e:  # noqa
+        problems.append("full tie: the translator could not read the current source of radon.py: %r" % (e,))
+    tied = False
+    xflags = ["-Q", str(ctx.dir), "GenC07"]
+    if text is not None:
+        gen = ctx.dir / "C07_GenFull.v"
+        for stale in (gen.with_suffix(".vo"), ctx.dir / "C07_GenFull_Properties.vo"):
+            if stale.exists():
+                stale.unlink()
+        gen.write_text(text)
+        rec["generated_definitions"] = len(re.findall(r"(?m)^\s*Definition gen_", text))
+        script = COQ / "gen_proofs" / "C07_GenFull_Properties.v"
+        bad = ctx.static_scan([gen, script, COQ / "lib" / "C07_TorchSem.v"])
+        if bad:
+            problems.append("forbidden declarations: %s" % bad[:5])
+        rc, out = ctx.coq_make(["lib/C07_TorchSem.vo"])
+        if rc != 0:
+            problems.append("full tie: coq/lib/C07_TorchSem.v does not build:\n" + "\n".join(out.strip().splitlines()[-8:]))
+        if not (ctx.dir / "C07_Gen.vo").exists():
+            problems.append("full tie: build/C07/C07_Gen.vo (geometry translator) is missing")
+        rc, out = sh(["timeout", "300", "coqc"] + COQ_FLAGS + xflags + [str(gen)], cwd=ctx.dir, timeout=330)
+        if rc != 0:
+            problems.append("full tie: generated file C07_GenFull.v does not compile:\n" + "\n".join(out.strip().splitlines()[-8:]))
+        elif not problems:
+            _RP_LOCK.acquire()
+            saved_cmd, saved_problems = ctx.cov["checker_cmd"], ctx._proof_problems
+            try:
+                ok = ctx.require_proofs(props_name="C07_GenFull_Properties", props_path=script, extra_flags=xflags, make_targets=[])
+                msg = "; ".join(ctx._proof_problems)
+            finally:
+                ctx.cov["checker_cmd"] = saved_cmd + "  ;  harness/translate_C07_full.py > build/C07/C07_GenFull.v && coqc " \
+                                                     "C07_GenFull.v && coqc coq/gen_proofs/C07_GenFull_Properties.v"
+                ctx._proof_problems = saved_problems
+                _RP_LOCK.release()
+            if not ok:
+                m = re.search(r'line (\d+), characters', msg)
+                lem = ""
+                if m:
+                    for i, line in enumerate(script.read_text().splitlines(), 1):
+                        if i > int(m.group(1)):
+                            break
+                        mm = re.match(r"\s*(?:Lemma|Theorem|Example)\s+(\w+)", line)
+                        if mm:
+                            lem = mm.group(1)
+                rec["broken_lemma"] = lem
+                problems.append("full tie: what the current source of radon.py says no longer equals the model (fixed proof "
+                                "script fails at `%s`): %s" % (lem, msg[:900]))
+            else:
+                tied = True
+    # ---- translator cross-test (only meaningful when the script compiled: it defines gen_radon / gen_iradon)
+    if tied:
+        try:
+            import random
+            r = random.Random((int(ctx.seed) << 8) ^ 0xC07)     # private stream: this runs beside the main thread
+            exprs, meta = [], []
+            for size in [2, 4, 6, 10, 16, 30, 64]:
+                exprs.append("kern (gen_filter_kernel %s)" % cz(size))
+                meta.append(("kern", size))
+                for name in FILTERS:
+                    exprs.append("gprobe (fname_of %d) %s" % (FIDX[name], cz(size)))
+                    meta.append(("probe", size, name))
+            for n in (3, 4, 5, 6, 7, 8):
+                theta = make_theta(["random", "special", "ends"][n % 3], 2, r.randrange(1 << 30))
+                img, z = quantised_image(IMG_KINDS[n % 5], n, r.randrange(1 << 30))
+                got = run_radon_port(img, theta)[0]
+                exprs.append("gen_radcmp %s %d %s %s %s" % (cz(n), IMG_DEN, czrows(z), cangs(port_cs(theta)), cqrows(got)))
+                meta.append(("radon", n, float(n * max(np.abs(img).max(), 1e-30))))
+            for j, (N, circle, out, filt) in enumerate([(2, True, None, None), (3, True, None, None), (4, False, None, None),
+                                                        (5, True, 7, None), (6, False, 3, None), (7, True, None, "hann"),
+                                                        (8, False, None, "ramp"), (9, True, 6, "cosine")]):
+                A = 1 + j % 3
+                theta = make_theta(["random", "special", "uniform"][j % 3], A, r.randrange(1 << 30))
+                A = len(theta)
+                sn = make_sino("dyadic", N, theta, r.randrange(1 << 30))
+                got = run_iradon_port(sn, theta, filt, circle, out)[0]
+                S = sk_det(N, circle)[0]
+                P = max(64, 1 << (2 * S - 1).bit_length())
+                o = got.shape[-1]
+                exprs.append("gen_ircmp %s %s %s %s %s %s %s 8 %s %s" % (
+                    _hker_expr(filt, P, run_filter_port), cq(fr(math.pi)), cz(o), cz(A), cz(N), cbool(circle),
+                    cangs(port_cs(theta)), czrows(np.rint(sn * 8).astype(int)), cqrows(got)))
+                meta.append(("iradon", N, float(np.abs(sn).max())))
+            vals = ctx.coq_eval("gentie", GEN_PRE, exprs, shard=max(1, len(exprs) // 10 + 1), extra_flags=xflags)
+            n_x = bad_x = 0
+            kern = {}
+            for m, v in zip(meta, vals):
+                if m[0] == "kern":
+                    kern[m[1]] = v
+                    continue
+                n_x += 1
+                if m[0] == "probe":
+                    _, size, name = m
+                    probes, r_even, r_odd = v
+                    model = _gen_filter_values(kern[size], probes)
+                    got = run_filter_port(size, name)
+                    err = float(np.abs(model - got).max()) if model.shape == got.shape else float("inf")
+                    odd_raises = False
+                    try:
+                        _mods()[4].get_fourier_filter_torch(size + 1, name)
+                    except ValueError:
+                        odd_raises = True
+                    okc = err <= FILTER_ATOL and (not r_even) and bool(r_odd) == odd_raises
+                    n_x += size - 1
+                else:
+                    shape, e60 = v
+                    tol = (RADON_RTOL if m[0] == "radon" else IRADON_RTOL) * m[2]
+                    okc = bool(shape) and float(e60) / Q60 <= tol
+                if not okc:
+                    bad_x += 1
+                    problems.append("full tie: translator cross-test: the generated %s function evaluated on %s differs from "
+                                    "the running code" % (m[0], m[1:]))
+            rec["translator_cross_test"] = {"evaluations": n_x, "mismatches": bad_x}
+            ctx.cov["traces_validated_against_impl"] += n_x
+        except Exception as e:  # noqa
+            problems.append("full tie: evaluation of the generated functions failed: %r" % (str(e)[:600],))
+    rec["status"] = "tied by theorem" if (tied and not problems) else "broken"
+    rec["wall_s"] = round(time.time() - t0, 2)
+    if problems:
+        rec["problems"] = [p[:1200] for p in problems]
+        msg = "; ".join(problems)
+        ctx.broken_obligation = (ctx.broken_obligation + "; " + msg) if ctx.broken_obligation else msg
+        ctx.log("PROOF OBLIGATION BROKEN (full source tie):", msg[:2000])
+    else:
+        ctx.log("full source tie: get_fourier_filter_torch / radon_torch / iradon_torch as the current source states them "
+                "tied by theorem to the model and to the scikit-image transcription (%d generated definitions; %s; %.1fs)"
+                % (rec.get("generated_definitions", 0), rec.get("translator_cross_test"), rec["wall_s"]))
+
+
+
+import threading as _threading
+_RP_LOCK = _threading.Lock()
 HK_BITS = 48
 
 
@@ -1457,7 +1832,14 @@ def run(ctx: Ctx):
         "sinograms evaluated and compared inside Coq against both implementations (n = 2..16, 21, 22, 32, 33[, 45, 48, "
         "64]); exact-Q reconstructions / filters vs both implementations on dyadic inputs (N = 2..9, filter sizes "
         "2..128[..512]), integer geometry N = 1..99[..399]; the geometry of the CURRENT source re-translated and tied by "
-        "theorem for every N. A case is distinct by (kind, size, image/sinogram kind, angle kind and count, filter, "
+        "theorem for every N, and the rest of radon.py (filter construction, sampling grid, back-projection term) "
+        "re-translated and tied by theorem for all arguments, the generated functions executed on ~800 inputs against "
+        "the running code. call HISTORIES — 6[40] sequences of ~47 calls in one process (all filter names x two sizes "
+        "per padded FFT size 64 / 128, iradon over widths sharing that padded size x filters x circle x angle sets x "
+        "float32/float64, radon with repeated / changed sizes, angle sets and dtypes, batches, the SAME tensor objects "
+        "handed to several calls; shuffled, every filter step repeated after all others), each step judged against "
+        "scikit-image; a failing step is re-run in a fresh interpreter to tell a history-dependent failure from a "
+        "plain one. A case is distinct by (kind, size, image/sinogram kind, angle kind and count, filter, "
         "circle, output size, dtype, seed); non-trivial when size >= 3 (filters: name is not None)")
     ctx.assumptions += [
         "scikit-image 0.26 (skimage.transform.radon / iradon / _get_fourier_filter, float64) is the reference the "
@@ -1483,10 +1865,44 @@ def run(ctx: Ctx):
         "the idioms int(ceil(sqrt(2) N)), int(floor(sqrt(N**2/2))), int(2**ceil(log2(2N))) are read as exact real "
         "arithmetic — float64 sqrt / float32 log2 round correctly for the widths compared numerically on every run, "
         "N <= 400; cross-tested against the sizes the running code passes to get_fourier_filter_torch, N = 1..200)",
+        "harness/translate_C07_full.py (symbolic execution of get_fourier_filter_torch / radon_torch / iradon_torch, "
+        "fail closed) with the FIXED MEANINGS it gives to torch calls, listed in its docstring and defined in "
+        "coq/lib/C07_TorchSem.v + the model's torch_arange / fftfreq / fftshift_src / unnormalize_ac / clampZ: arange, "
+        "cat, zeros, meshgrid(ij|xy), stack(-1), matmul, transpose, grid_sample(bilinear, zeros, align_corners=True), "
+        "squeeze/sum over [B,row,col], floor, clamp, gather, tensor*bool, linspace, fftfreq, fftshift, hamming/hann "
+        "window(periodic), sin/cos of rational multiples of pi, sin(x)/x, 2 real(fft f) = rampF; view / reshape / "
+        "flatten / expand / unsqueeze with arguments among {B, 1, -1, N, out, 2} read as batch / row-major re-shapes; "
+        "the FFT filtering pipeline is tied structurally (provenance term) and by its sizes, its numerics are the "
+        "convolution contract above; cross-tested on every run (filters 7 sizes x 6 names x every index, 6 sinograms, "
+        "8 reconstructions evaluated from the generated definitions against the running code)",
     ]
-    # the proof obligations (12 s of coqc, mostly Print Assumptions) are checked while the oracle runs
+    # the proof obligations (12 s of coqc, mostly Print Assumptions) are checked while the oracle runs; the two source
+    # ties (translate -> coqc generated file -> coqc fixed script, twice) follow in the same background thread and run
+    # in parallel with the correspondence evaluations
     import threading
-    th = threading.Thread(target=ctx.proofs_or_violation)
+    built = threading.Event()
+
+    def background():
+        try:
+            ctx.proofs_or_violation()
+        finally:
+            built.set()
+        def guarded(what, job):
+            try:
+                job()
+            except Exception as e:  # noqa  (fail closed)
+                msg = "%s could not run: %r" % (what, e)
+                ctx.broken_obligation = (ctx.broken_obligation + "; " + msg) if ctx.broken_obligation else msg
+        pre = {"defs": None, "problems": ["geometry tie could not run"], "compiled": False}
+        try:
+            pre = prebuild_geometry_gen(ctx)
+        except Exception as e:  # noqa
+            pre["problems"] = ["geometry tie could not run: %r" % (e,)]
+        full = threading.Thread(target=guarded, args=("full source tie", lambda: check_full_tie(ctx)))
+        full.start()
+        guarded("geometry tie", lambda: check_geometry_tie(ctx, None, pre))
+        full.join()
+    th = threading.Thread(target=background)
     th.start()
     try:
         _mods()
@@ -1495,24 +1911,13 @@ def run(ctx: Ctx):
             record_outside_domain(ctx)
         except Exception as e:  # noqa  (never judged)
             ctx.log("record_outside_domain failed: %r" % (e,))
-    finally:
-        th.join()
-    # the source-geometry tie (3 coqc runs) is independent of the correspondence runs: in parallel with them
-    def tie_job():
-        try:
-            check_geometry_tie(ctx, None)
-        except Exception as e:  # noqa  (fail closed)
-            msg = "geometry tie could not run: %r" % (e,)
-            ctx.broken_obligation = (ctx.broken_obligation + "; " + msg) if ctx.broken_obligation else msg
-    tie = threading.Thread(target=tie_job)
-    tie.start()
-    try:
+        built.wait()
         check_radon_corr(ctx)
         check_filter_corr(ctx)
         geo, dth = check_geometry_corr(ctx)
         check_iradon_corr(ctx, geo, dth)
     finally:
-        tie.join()
+        th.join()
 
 
 def replay(ctx: Ctx, path):
